@@ -121,7 +121,7 @@ def harness(cfg, ns):
         return obls
 
     def h_ctor(ctx):
-        rng = stubs.RNG(ctx, max_draws=2)
+        rng = stubs.RNG(ctx, max_draws=10000)
         ns.np.random = rng
         from sortedcontainers import SortedSet
         import numpy as real_np
@@ -201,47 +201,52 @@ def replay(case):
         if a != b:
             bad.append("constructing a dissimilarity advanced the numpy global RNG")
         return dict(reproduced=bool(bad), detail="; ".join(bad))
-    # schedule-dependent behaviour: run a seeded gamma twice, with jobs forced in submission order and in reversed order
-    class Fut:
-        def __init__(self, ex, fn, args):
-            self.ex, self.fn, self.args, self.done = ex, fn, args, False
-
-        def force(self):
-            if not self.done:
-                self.val = self.fn(*self.args)
-                self.done = True
-
-        def result(self, timeout=None):
-            for f in (reversed(self.ex.pending) if self.ex.rev else self.ex.pending):
-                f.force()
-            return self.val
-
-    def mk(rev):
-        class Ex:
-            def __init__(self, max_workers=None):
-                self.pending, self.rev = [], rev
-
-            def __enter__(self):
-                return self
-
-            def __exit__(self, *a):
-                for f in self.pending:
-                    f.force()
-
-            def submit(self, fn, *args):
-                f = Fut(self, fn, args)
-                self.pending.append(f)
-                return f
-        return Ex
+    # schedule-dependent behaviour, on real threads: a seeded gamma (a) with one worker, (b) with 16 workers and
+    # jobs delayed so that later-submitted jobs finish first, (c) repeated; all must agree
+    import time
+    import threading
     c = pa.Continuum()
     for i, a in enumerate(("a", "b")):
         for j in range(3):
             c.add(a, Segment(10 * j + i, 10 * j + 4 + i), "xy"[j % 2])
+    jobs = ["_compute_best_alignment_job", "_compute_soft_alignment_job", "_compute_fast_alignment_job", "_compute_gamma_k_job"]
+    origs = {k: getattr(co, k) for k in jobs}
+    counter = [0]
+    lock = threading.Lock()
+    N = 5
+
+    def delayed(k):
+        def f(*a):
+            with lock:
+                idx = counter[0]
+                counter[0] += 1
+            time.sleep(max(0, (N - idx % (N + 1))) * 0.03)
+            return origs[k](*a)
+        return f
     outs = []
-    for rev in (False, True):
+    d = pa.CombinedCategoricalDissimilarity()
+
+    def run(workers, delay, soft=False):
+        counter[0] = 0
         np.random.seed(11)
-        with mock.patch.object(co, "ThreadPoolExecutor", mk(rev)):
-            r = c.compute_gamma(pa.CombinedCategoricalDissimilarity(), n_samples=4)
-            outs.append(([float(a.disorder) for a in r.chance_alignments], float(r.gamma), float(r.gamma_cat), float(r.gamma_k("x"))))
-    bad = [] if outs[0] == outs[1] else [f"results depend on the job order: {outs[0]} vs {outs[1]}"]
-    return dict(reproduced=bool(bad), detail="; ".join(bad)[:500])
+        patches = [mock.patch.object(co.os, "cpu_count", lambda: workers)]
+        if delay:
+            patches += [mock.patch.object(co, k, delayed(k)) for k in jobs]
+        for p_ in patches:
+            p_.start()
+        try:
+            r = c.compute_gamma(d, n_samples=N, soft=soft)
+            return ([round(float(a.disorder), 6) for a in r.chance_alignments], round(float(r.gamma), 6), round(float(r.gamma_cat), 6), round(float(r.gamma_k("x")), 6))
+        finally:
+            for p_ in patches:
+                p_.stop()
+    try:
+        for soft in (False, True):
+            outs = [run(1, False, soft), run(16, True, soft), run(16, True, soft)]
+            if not (outs[0] == outs[1] == outs[2]):
+                return dict(reproduced=True, detail=f"seeded results depend on the thread schedule (soft={soft}): {outs[0]} vs {outs[1]} vs {outs[2]}"[:600])
+    except Exception as ex:     # noqa: BLE001
+        return dict(reproduced=True, detail="seeded gamma computation raised " + repr(ex)[:300])
+    if case.get("kind") == "gamma":
+        return c05.replay(case)
+    return dict(reproduced=False, detail="")
